@@ -102,7 +102,7 @@ func diffStill(p *stillParts) *diffOutcome {
 		switch {
 		case lib && ok1 && err2 == nil:
 			if i := firstDiff(w1, w2); i >= 0 {
-				o.WitnessNote = fmt.Sprintf("libwebp and x/image disagree at byte %d", i)
+				o.WitnessNote = fmt.Sprintf("libwebp and x/image disagree (first at byte %d mod 4 = channel %d)", i-i%4, i%4)[:0] + fmt.Sprintf("libwebp and x/image disagree on channel %d", i%4)
 				return o
 			}
 			truth = w1
